@@ -56,7 +56,7 @@ def projection(spec, supplied, parsed, where="value"):
     """model-free: every plain member the caller supplied must come back unchanged; returns a message or None"""
     k = spec[0]
     if k in ("int", "varint", "zigzag", "bytes", "gbytes", "pstr", "pascal", "cstr", "gstr", "flag", "float", "bits", "bit",
-             "nibble", "octet", "mapping", "oneof", "noneof", "exprsym", "expradd", "exprvalid"):
+             "nibble", "octet", "mapping", "oneof", "noneof", "exprsym", "expradd", "exprvalid", "bint"):
         if k == "flag":
             return None if parsed is bool(supplied) else "%s: built %r, parsed %r" % (where, supplied, parsed)
         if not feq(supplied, parsed) or (isinstance(supplied, str) and not isinstance(parsed, str)):
